@@ -192,8 +192,10 @@ def check_C01(tier, seed):
     # recursive definitions (self-calls in and out of tail position, cond clauses without body, &optional / &rest)
     nrec = tier_n(tier, 500, 8000)
     for i in range(nrec):
-        g = TailGen(rng, 'f', rng.choice(['req', 'req', 'opt', 'rest']))
-        d = g.defun(rng.choice([1, 2, 3, 4]))
+        if i < len(CANON_REC): d = CANON_REC[i]
+        else:
+            g = TailGen(rng, 'f', rng.choice(['req', 'req', 'opt', 'rest']))
+            d = g.defun(rng.choice([1, 2, 3, 4]))
         c = Case('r%d' % i, meta={'texts': [render(d)]})
         c.eval('(setq g 0) ' + render(d))
         for nn in rng.sample([0, 1, 2, 3, 5, 8, 13], 4):
@@ -1613,6 +1615,7 @@ CHECKS['C05'] = check_C05
 class TailGen:
     def __init__(self, rng, name='f', shape='req'):
         self.r = rng; self.name = name; self.tid = 0; self.has_nontail = False; self.shape = shape
+        self.free_reads = False
     def tk(self, e):
         if self.r.random() < 0.25:
             self.tid += 1; return ['tick', self.tid, e]
@@ -1620,6 +1623,9 @@ class TailGen:
     def cond_e(self):
         return self.r.choice([['<', ['mod', 'n', 3], 1], ['<', ['mod', 'n', 2], 1], ['>', 'acc', 100], ['<', ['mod', ['+', 'n', 'acc'], 4], 2], True, None])
     def acc_e(self):
+        # m and k are global variables (preset to 0) that let / let* forms of the body may rebind: reading them
+        # free shows whether the callee still sees the caller's let bindings (dynamic scope)
+        if self.free_reads and self.r.random() < 0.12: return self.tk(['+', 'acc', self.r.choice(['m', 'k'])])
         return self.tk(self.r.choice([['+', 'acc', 'n'], ['+', 'acc', 1], ['*', 2, ['mod', 'acc', 1000]], 'acc', ['-', 'acc', 'n'], ['+', 'n', 1]]))
     def selfcall(self):
         r = self.r
@@ -1631,7 +1637,11 @@ class TailGen:
         if self.shape == 'req': return [self.name, n1, a]
         if self.shape == 'opt': return [self.name, n1, a] if r.random() < 0.8 else [self.name, n1]
         return [self.name, n1, a, 'n']                      # &rest collects the extra
-    def base(self): return self.tk(self.r.choice(['acc', ['list', 'acc', 'n'], ['+', 'acc', 0], ['if', ['<', ['mod', 'acc', 3], 1], None, 'acc'], ['if', ['<', 'acc', 2], ['nofn'], 'acc']]))
+    def base(self):
+        if self.free_reads and self.r.random() < 0.15: return self.tk(['list', 'acc', 'm', 'k'])
+        # nil results matter: a self-call used as the test of a body-less cond clause falls through only when it yields nil
+        if self.r.random() < 0.2: return self.r.choice([None, ['if', ['<', ['mod', 'acc', 2], 1], None, 'acc']])
+        return self.tk(self.r.choice(['acc', ['list', 'acc', 'n'], ['+', 'acc', 0], ['if', ['<', ['mod', 'acc', 3], 1], None, 'acc'], ['if', ['<', 'acc', 2], ['nofn'], 'acc']]))
     def tail(self, d):
         r = self.r
         if d <= 0: return self.selfcall() if r.random() < 0.7 else self.base()
@@ -1642,7 +1652,7 @@ class TailGen:
         if c == 'cond':
             cl = [[self.cond_e(), self.tail(d - 1)] for _ in range(r.choice([1, 2, 3]))]
             if r.random() < 0.3: cl.insert(r.randrange(len(cl) + 1), [self.cond_e()])
-            if r.random() < 0.25:
+            if r.random() < 0.35:
                 self.has_nontail = True
                 cl.insert(r.randrange(len(cl) + 1), [self.selfcall()])       # body-less clause: the self-call is a test, not a tail
             cl.append([True, self.tail(d - 1)])
@@ -1663,6 +1673,20 @@ class TailGen:
         if self.shape == 'opt': body = ['let', [['acc', ['or', 'acc', 0]]], body]
         return ['defun', self.name, ps, ['if', ['<', 'n', 1], guard_acc, body]]
 
+# hand-written recursive definitions for corners that random generation reaches only now and then
+CANON_REC = [
+    # a self-call as the test of a body-less cond clause: not a tail position; nil falls through to the next clause
+    ['defun', 'f', ['n', 'acc'], ['cond', [['<', 'n', 1], None], [['f', ['-', 'n', 1], 'acc']], [True, ['setq', 'g', ['+', 'g', 1]], ['list', 'n', 'acc']]]],
+    ['defun', 'f', ['n', 'acc'], ['if', ['<', 'n', 1], ['if', ['<', ['mod', 'acc', 2], 1], None, 'acc'], ['cond', [['f', ['-', 'n', 1], ['+', 'acc', 1]]], [['<', 'n', 3], ['list', 'n', 'g']], [True, ['f', ['-', 'n', 2], 'acc']]]]],
+    ['defun', 'f', ['n', '&optional', 'acc'], ['progn', ['setq', 'g', ['+', 'g', 'n']], ['let', [['m', 'n']], ['cond', [['<', 'n', 1], 'acc'], [['f', ['-', 'n', 1]]], [True, ['list', 'm', 'acc', 'g']]]]]],
+    # &optional left out by the tail call; &rest collecting; arguments that permute the parameters
+    ['defun', 'f', ['n', '&optional', 'acc', 'o2'], ['if', ['<', 'n', 1], ['list', 'acc', 'o2'], ['if', ['<', ['mod', 'n', 2], 1], ['f', ['-', 'n', 1], 'n'], ['f', ['-', 'n', 1], 'acc', 'n']]]],
+    ['defun', 'f', ['n', 'acc', '&rest', 'more'], ['if', ['<', 'n', 1], ['list', 'acc', 'more'], ['f', ['-', 'n', 1], ['car', 'more'], 'acc', 'n']]],
+    ['defun', 'f', ['n', 'acc'], ['if', ['<', 'n', 1], 'acc', ['f', ['-', 'n', 1], ['let', [['n', 'acc']], ['+', 'n', 1]]]]],
+    # tail positions under when / unless / let* / nested cond; a non-tail call under and
+    ['defun', 'f', ['n', 'acc'], ['cond', [['<', 'n', 1], 'acc'], [['<', ['mod', 'n', 2], 1], ['when', True, ['unless', None, ['let*', [['a1', ['+', 'acc', 1]], ['a2', ['+', 'a1', 'n']]], ['f', ['-', 'n', 1], 'a2']]]]], [True, ['and', True, ['f', ['-', 'n', 1], 'acc']]]]],
+]
+
 def untail(x, name):
     """The same definition with every direct self-call written (funcall 'name ...): ordinary recursion."""
     from .gen.sexp import Wrap, Dot
@@ -1673,6 +1697,41 @@ def untail(x, name):
     if isinstance(x, Wrap): return x
     return x
 
+def rename_tail_lets(x, params, counter=None, tail=True):
+    """The definition with the variable of every let / let* that encloses a tail position renamed apart inside its
+    scope (an alpha-renaming under the lexical reading): returns (renamed, number of renamed binders)."""
+    from .gen.sexp import Wrap
+    if counter is None: counter = [0]
+    def subst(e, a, b):
+        if e == a: return b
+        if isinstance(e, list): return [subst(i, a, b) for i in e]
+        return e
+    if not isinstance(x, list) or not x: return x, counter[0]
+    h = x[0]
+    if h == 'defun':
+        body = x[3:]
+        out = [rename_tail_lets(b, params, counter, tail=(j == len(body) - 1))[0] for j, b in enumerate(body)]
+        return x[:3] + out, counter[0]
+    if not tail: return x, counter[0]
+    if h in ('let', 'let*') and len(x) >= 3 and isinstance(x[1], list):
+        binds = [list(b) for b in x[1]]; body = list(x[2:])
+        for j, b in enumerate(binds):
+            v = b[0]
+            if v in params or not isinstance(v, str): continue
+            counter[0] += 1; nv_ = '%s--%d' % (v, counter[0])
+            binds[j][0] = nv_
+            for j2 in range(j + 1, len(binds)): binds[j2] = [binds[j2][0]] + [subst(e, v, nv_) for e in binds[j2][1:]]
+            body = [subst(e, v, nv_) for e in body]
+        body = [rename_tail_lets(b, params, counter, tail=(j == len(body) - 1))[0] for j, b in enumerate(body)]
+        return [h, binds] + body, counter[0]
+    if h == 'if': return [h, x[1]] + [rename_tail_lets(b, params, counter, True)[0] for b in x[2:3]] + [rename_tail_lets(b, params, counter, j == len(x[3:]) - 1)[0] for j, b in enumerate(x[3:])], counter[0]
+    if h in ('progn', 'when', 'unless'):
+        k0 = 1 if h == 'progn' else 2
+        return x[:k0] + [rename_tail_lets(b, params, counter, j == len(x[k0:]) - 1)[0] for j, b in enumerate(x[k0:])], counter[0]
+    if h == 'cond':
+        return [h] + [([cl[0]] + [rename_tail_lets(b, params, counter, j == len(cl[1:]) - 1)[0] for j, b in enumerate(cl[1:])]) if isinstance(cl, list) and cl else cl for cl in x[1:]], counter[0]
+    return x, counter[0]
+
 def check_C04(tier, seed):
     res = Result('C04', tier, seed); res.pending = []
     gate = proof_gate('C04')
@@ -1680,10 +1739,23 @@ def check_C04(tier, seed):
     rng = random.Random(seed)
     cases = []; metas = []
     nprog = tier_n(tier, 400, 10000)
+    PRE = '(setq g 0) (setq m 0) (setq k 0) '
+    vars_ = ['n', 'acc', 'm', 'k', 'g', 'more']
+    def two_variants(tag, i, d, calls):
+        out = []
+        for variant, dd in (('t', d), ('u', untail(d, 'f'))):
+            c = Case('%s%s%d' % (tag, variant, i))
+            c.eval(PRE + render(dd)); c.vars(vars_)
+            for cl in calls:
+                c.eval(render(cl)); c.vars(vars_)
+            out.append(c)
+        return out
     for i in range(nprog):
         shape = rng.choice(['req', 'req', 'opt', 'rest'])
         g = TailGen(rng, 'f', shape)
+        g.free_reads = rng.random() < 0.5
         d = g.defun(rng.choice([1, 2, 3, 4]))
+        if i < len(CANON_REC): d = CANON_REC[i]; g.has_nontail = True; g.free_reads = False
         calls = []
         for _ in range(3):
             n = rng.choice([0, 1, 2, 3, 5, 8, 13, 30])
@@ -1691,29 +1763,49 @@ def check_C04(tier, seed):
             if route == 'direct': calls.append(['f', n, 0])
             elif route == 'funcall': calls.append(['funcall', Q('f'), n, 1])
             else: calls.append(['mapcar', ['lambda', ['e'], ['f', 'e', 0]], Q([0, 1, n])])
-        vars_ = ['n', 'acc', 'm', 'k', 'g', 'more']
-        for variant, dd in (('t', d), ('u', untail(d, 'f'))):
-            c = Case('%s%d' % (variant, i))
-            c.eval('(setq g 0) ' + render(dd)); c.vars(vars_)
-            for cl in calls:
-                c.eval(render(cl)); c.vars(vars_)
-            cases.append(c)
-        metas.append({'defun': render(d), 'nontail': g.has_nontail, 'shape': shape})
+        cases += two_variants('', i, d, calls)
+        metas.append({'defun': render(d), 'nontail': g.has_nontail, 'shape': shape, 'sexp': d, 'calls': calls, 'free_reads': g.free_reads})
     impl, model, dis = differential(res, cases)
     nv = 0
     distinct = set()
     def obsl(l):
         idx, kind, payload, ticks = core.parse_line(l)
         return core.default_observe(kind, payload, ticks)
+    differing = []
     for i, meta in enumerate(metas):
         a = [obsl(l) for l in impl.get('t%d' % i, [])][1:]
         b = [obsl(l) for l in impl.get('u%d' % i, [])][1:]
         distinct.add((meta['defun'][:60], tuple(x[1] for x in a)))
-        if a != b:
-            nv += 1
-            if nv <= 8:
-                res.violation('tail-meaning', {'defun': meta['defun'], 'why': 'result, side effects or final variables differ from ordinary recursion (the same definition with its self-calls written (funcall \'f ...))',
-                                               'trampolined': [decode_line(l) for l in impl.get('t%d' % i, [])], 'ordinary': [decode_line(l) for l in impl.get('u%d' % i, [])]})
+        if a != b: differing.append(i)
+    # A difference that disappears when the variables of the let / let* forms enclosing a tail position are renamed
+    # apart is the listed finding D35 (the loop leaves the let before the next activation runs; ordinary recursion
+    # runs it inside, and tulisp variables are dynamically scoped); every other difference is a violation.
+    rcases = []; rmeta = {}
+    for i in differing:
+        meta = metas[i]
+        params = [p_ for p_ in meta['sexp'][2] if not p_.startswith('&')]
+        dr, nren = rename_tail_lets(meta['sexp'], params)
+        if nren:
+            rmeta[i] = render(dr); rcases += two_variants('r', i, dr, meta['calls'])
+    rimpl = core.run_side(core.TLIMPL_DEBUG, rcases, announce=True) if rcases else {}
+    kf_let = 0; kf_example = None
+    for i in differing:
+        meta = metas[i]
+        if i in rmeta:
+            a = [obsl(l) for l in rimpl.get('rt%d' % i, [])][1:]
+            b = [obsl(l) for l in rimpl.get('ru%d' % i, [])][1:]
+            if a and a == b:
+                kf_let += 1; kf_example = kf_example or meta['defun']
+                continue
+        nv += 1
+        if nv <= 8:
+            res.violation('tail-meaning', {'defun': meta['defun'], 'why': 'result, side effects or final variables differ from ordinary recursion (the same definition with its self-calls written (funcall \'f ...))',
+                                           'renamed_apart': rmeta.get(i),
+                                           'trampolined': [decode_line(l) for l in impl.get('t%d' % i, [])], 'ordinary': [decode_line(l) for l in impl.get('u%d' % i, [])]})
+    replay_known(res, 'C04')
+    classifier_hits(res, 'C04', 'c04_let_tail_dynamic', kf_let, kf_example)
+    res.cov['dynamic_let_tail_cases'] = kf_let
+    res.cov['programs_with_free_reads'] = sum(1 for m_ in metas if m_['free_reads'])
     # --- stack: pure tail-recursive bodies, many iterations on a small stack, both profiles
     stack_cases = []
     canon = [
